@@ -23,6 +23,8 @@ def step (st : State) (line : String) : State × String :=
   | "WP" :: args => (st, handlePiece st args impl)
   | "SPLIT" :: args => (st, handleSplit args impl)
   | "NORM" :: args => (st, handleNorm args impl)
+  | "NORMS" :: args => (st, handleNormSlot st args impl)
+  | "CMAP_LOAD" :: args => (st, handleCmapLoad args impl)
   | _ => (st, "BAD-OP")
 
 partial def loop (h : IO.FS.Stream) (out : IO.FS.Stream) (st : State) : IO Unit := do
